@@ -116,6 +116,40 @@ pub open spec fn bundle_proves_final(st: &SlotState, certs: Seq<Cert>) -> bool {
         && certs[0] == Cert::Final(st.certificates.finalize->0) && certs[1] == Cert::Notar(st.certificates.notar->0))
 }
 
+pub open spec fn st_is_notarized(st: Option<FinalizationStatus>) -> bool {
+    st matches Some(x) && x is Notarized
+}
+// certificates are never taken back: what one state holds of the three kinds that prove finality, the other holds as well
+pub open spec fn certs_grow(a: SlotState, b: SlotState) -> bool {
+    &&& a.certificates.notar is Some ==> b.certificates.notar is Some
+    &&& a.certificates.finalize is Some ==> b.certificates.finalize is Some
+    &&& a.certificates.fast_finalize is Some ==> b.certificates.fast_finalize is Some
+}
+pub proof fn lemma_fin_ok_transfer(o: &PoolImpl, n: &PoolImpl)
+    requires
+        o.fin_ok(),
+        n.finality_tracker == o.finality_tracker,
+        forall|s: Slot| #[trigger] o.slot_states@.contains_key(s) && s.0 >= o.lo()
+            ==> n.slot_states@.contains_key(s) && certs_grow(o.slot_states@[s], n.slot_states@[s]),
+    ensures
+        n.fin_ok(),
+{
+    assert forall|s: Slot| (#[trigger] n.finality_tracker.st(s)) == Some(FinalizationStatus::FinalPendingNotar)
+        implies n.slot_states@.contains_key(s) && n.slot_states@[s].certificates.finalize is Some by {
+        assert(o.finality_tracker.status@.contains_key(s));
+        assert(o.slot_states@.contains_key(s));
+    }
+    assert forall|s: Slot| s.0 > 0 && st_is_notarized(#[trigger] n.finality_tracker.st(s))
+        implies n.slot_states@.contains_key(s) && n.slot_states@[s].certificates.notar is Some by {
+        assert(o.finality_tracker.status@.contains_key(s));
+        assert(o.slot_states@.contains_key(s));
+    }
+    if n.hi() > 0 {
+        let h = o.finality_tracker.highest_finalized_slot;
+        assert(o.slot_states@.contains_key(h) && h.0 >= o.lo());
+    }
+}
+
 // the keys >= from of the slot-state map, in iteration (ascending) order: what `range(from..)` visits
 pub uninterp spec fn spec_range_keys(m: Map<Slot, SlotState>, from: int) -> Seq<Slot>;
 #[verifier::external_body]
@@ -163,7 +197,10 @@ pub uninterp spec fn was_sent(e: PoolEvent) -> bool;
 pub uninterp spec fn was_sent_standstill(next: Slot, certs: Seq<Cert>, votes: Seq<Vote>) -> bool;
 
 // ---------------------------------------------------------------- C06 pool-level wiring specification
-#[verifier::external_body] pub struct FinalizationEvent { _p: () }
+/*@ extract src/consensus/pool/finality_tracker.rs :: struct FinalizationEvent
+derive
+@*/
+/*@ include units/finality/spec.rs @*/
 impl SlotState {
     // "notarized-fallback-or-stronger certified" (the postcondition PROVED for is_notar_fallback_or_stronger in unit slot_state)
     pub open spec fn nf_or_stronger(&self, h: BlockHash) -> bool {
@@ -202,6 +239,21 @@ impl PoolImpl {
     pub open spec fn retained_ok(&self) -> bool {
         forall|s: Slot| #[trigger] self.slot_states@.contains_key(s) ==> s.0 >= self.lo()
     }
+    // ---- C18: what standstill recovery relies on.  The finality tracker keeps a status per slot, the pool keeps the certificates
+    // per slot; the two are tied together: a slot the tracker has as Notarized / FinalPendingNotar holds the notarization /
+    // finalization certificate, and the highest finalized slot holds the certificates that prove it finalized
+    pub open spec fn marks_backed(&self) -> bool {
+        &&& forall|s: Slot| (#[trigger] self.finality_tracker.st(s)) == Some(FinalizationStatus::FinalPendingNotar)
+                ==> self.slot_states@.contains_key(s) && self.slot_states@[s].certificates.finalize is Some
+        // (genesis is notarized from the start, without a certificate)
+        &&& forall|s: Slot| s.0 > 0 && st_is_notarized(#[trigger] self.finality_tracker.st(s))
+                ==> self.slot_states@.contains_key(s) && self.slot_states@[s].certificates.notar is Some
+    }
+    pub open spec fn final_backed(&self) -> bool {
+        self.hi() > 0 ==> self.slot_states@.contains_key(self.finality_tracker.highest_finalized_slot)
+            && self.slot_states@[self.finality_tracker.highest_finalized_slot].proves_finalized()
+    }
+    pub open spec fn fin_ok(&self) -> bool { self.finality_tracker.wf() && self.marks_backed() && self.final_backed() }
     // the slot states of `self` extend those of `o`: the same slots, no registered block forgotten
     pub open spec fn extends(&self, o: &PoolImpl) -> bool {
         &&& forall|s: Slot| #[trigger] self.slot_states@.contains_key(s) <==> o.slot_states@.contains_key(s)
@@ -705,6 +757,16 @@ impl PoolImpl {
     #[verifier::external_body]
     pub fn send_repair(&self, block: BlockId) { unimplemented!() }
 
+/*@ extract src/consensus/pool.rs :: impl PoolImpl/fn new
+props C18 C08 C06
+ret r
+ensures
+        // [C18.fresh_pool_satisfies_the_invariants] an empty pool satisfies every invariant the operations below keep: nothing
+        // waits, nothing is retained, the tracker is well formed, and nothing beyond genesis is finalized
+        r.fin_ok() && r.waiting_ok() && r.retained_ok(),
+        r.hi() == 0 && r.lo() == 0,
+        r.slot_states@ == Map::<Slot, SlotState>::empty(),
+@*/
 /*@ extract src/consensus/pool.rs :: impl PoolImpl/fn first_unpruned_slot
 props C08 C04
 ret r
@@ -726,11 +788,14 @@ rewrite[R4] `for cert in new_certs {` => `let mut verif_it1 = new_certs.into_ite
 rewrite[R4] `for event in votor_events {` => `let mut verif_it2 = votor_events.into_iter(); loop { let event = match verif_it2.next() { Some(x) => x, None => break };`
 rewrite[R4] `for (slot, block_hash) in blocks_to_repair {` => `let mut verif_it3 = blocks_to_repair.into_iter(); loop { let (slot, block_hash) = match verif_it3.next() { Some(x) => x, None => break };`
 requires
+        old(self).fin_ok(),
         old(self).wf(),
         old(self).waiting_ok() && old(self).retained_ok(),
         // what ValidatedVote::try_new guarantees (C09): the signer is a validator of the epoch
         (vote.vote.spec_signer().0 as int) < old(self).epoch_info.epoch.validators@.len(),
 ensures
+        // [C18.finalized_slot_is_backed_by_stored_certificates C10.finalized_slot_is_backed_by_stored_certificates]
+        final(self).fin_ok(),
         // [C08.nothing_is_tracked_for_a_decided_slot C03.nothing_is_tracked_for_a_decided_slot] also when the vote completes several
         // certificates at once and one of them decides the slot of the next
         final(self).retained_ok(),
@@ -763,12 +828,18 @@ before `return Err(AddVoteError::Slashable(offence));`
             let f = *self;
             assert forall|c: BlockId| #[trigger] pre.registered(c) implies f.registered(c) by { if c.0 == slot {} }
             lemma_waiting_ok_transfer(&pre, &f);
+            assert forall|s: Slot| #[trigger] pre.slot_states@.contains_key(s) && s.0 >= pre.lo()
+                implies f.slot_states@.contains_key(s) && certs_grow(pre.slot_states@[s], f.slot_states@[s]) by { if s == slot {} }
+            lemma_fin_ok_transfer(&pre, &f);
         }
 before `return Err(AddVoteError::Duplicate);`
         proof {
             let f = *self;
             assert forall|c: BlockId| #[trigger] pre.registered(c) implies f.registered(c) by { if c.0 == slot {} }
             lemma_waiting_ok_transfer(&pre, &f);
+            assert forall|s: Slot| #[trigger] pre.slot_states@.contains_key(s) && s.0 >= pre.lo()
+                implies f.slot_states@.contains_key(s) && certs_grow(pre.slot_states@[s], f.slot_states@[s]) by { if s == slot {} }
+            lemma_fin_ok_transfer(&pre, &f);
         }
 after `let (new_certs, votor_events, blocks_to_repair) = slot_state.add_vote(vote, voter_stake);`
         proof {
@@ -776,15 +847,23 @@ after `let (new_certs, votor_events, blocks_to_repair) = slot_state.add_vote(vot
             assert forall|c: BlockId| #[trigger] pre.registered(c) implies f.registered(c) by { if c.0 == slot {} }
             lemma_waiting_ok_transfer(&pre, &f);
             assert(f.retained_ok());
+            assert forall|s: Slot| #[trigger] pre.slot_states@.contains_key(s) && s.0 >= pre.lo()
+                implies f.slot_states@.contains_key(s) && certs_grow(pre.slot_states@[s], f.slot_states@[s]) by { if s == slot {} }
+            lemma_fin_ok_transfer(&pre, &f);
+            // the certificates the vote completed are certificates of this slot, which passed the slot-window check
+            assert forall|k: int| 0 <= k < new_certs@.len() implies (#[trigger] new_certs@[k]).spec_slot().0 < u64::MAX by {
+                assert(f.slot_states@[slot].cert_ok(new_certs@[k]));
+            }
         }
 loop 0
-        invariant self.waiting_ok() && self.retained_ok(),
+        invariant self.waiting_ok() && self.retained_ok(), self.fin_ok(),
+            forall|k: int| 0 <= k < verif_it1.rest().len() ==> (#[trigger] verif_it1.rest()[k]).spec_slot().0 < u64::MAX,
         decreases verif_it1.rest().len(),
 loop 1
-        invariant self.waiting_ok() && self.retained_ok(),
+        invariant self.waiting_ok() && self.retained_ok(), self.fin_ok(),
         decreases verif_it2.rest().len(),
 loop 2
-        invariant self.waiting_ok() && self.retained_ok(),
+        invariant self.waiting_ok() && self.retained_ok(), self.fin_ok(),
         decreases verif_it3.rest().len(),
 @*/
 
@@ -793,6 +872,8 @@ props C08 C06
 rewrite[R8] `self.slot_states.split_off(` => `self.slot_states.verif_split_off(`
 rewrite?[R8] `self.s2n_waiting_parent_cert.retain(|_, children| { children.retain(|(slot, _)| *slot >= first_unpruned_slot); !children.is_empty() });` => `verif_retain_waiting(&mut self.s2n_waiting_parent_cert, first_unpruned_slot);`
 ensures
+        // [C18.finalized_slot_is_backed_by_stored_certificates C10.finalized_slot_is_backed_by_stored_certificates]
+        old(self).fin_ok() ==> final(self).fin_ok(),
         // [C08.pool_retains_exactly_the_unpruned_slots]
         forall|s: Slot| #[trigger] final(self).slot_states@.contains_key(s) <==> (old(self).slot_states@.contains_key(s) && s.0 >= old(self).lo()),
         forall|s: Slot| final(self).slot_states@.contains_key(s) ==> final(self).slot_states@[s] == old(self).slot_states@[s],
@@ -803,6 +884,10 @@ ensures
         forall|p: BlockId, c: BlockId| #[trigger] final(self).waits(p, c) ==> old(self).waits(p, c) && c.0.0 >= old(self).lo(),
         // [C06.waiting_child_of_an_undecided_slot_is_kept]
         forall|p: BlockId, c: BlockId| #[trigger] old(self).waits(p, c) && c.0.0 >= old(self).lo() ==> final(self).waits(p, c),
+before `let first_unpruned_slot = self.first_unpruned_slot();`
+        let ghost verif_pre = *old(self);
+after `self.parent_ready_tracker.prune(first_unpruned_slot);`
+        proof { if verif_pre.fin_ok() { lemma_fin_ok_transfer(&verif_pre, self); } }
 before `self.parent_ready_tracker.prune(`
         proof {
             assert forall|s: Slot| #[trigger] self.slot_states@.contains_key(s) == self.slot_states.spec_map().contains_key(s) by {}
@@ -817,9 +902,12 @@ elide-async
 ret r
 rewrite[R8] `certs .notar_fallback .iter() .any(|nf| nf.block_hash() == nf_cert.block_hash())` => `verif_any_nf_for_block(&certs.notar_fallback, nf_cert.block_hash())`
 requires
+        old(self).fin_ok(),
         old(self).wf(),
         old(self).waiting_ok() && old(self).retained_ok(),
 ensures
+        // [C18.finalized_slot_is_backed_by_stored_certificates C10.finalized_slot_is_backed_by_stored_certificates]
+        final(self).fin_ok(),
         // [C08.nothing_is_tracked_for_a_decided_slot]
         final(self).retained_ok(),
         // [C06.waiting_child_is_still_registered C08.waiting_child_is_still_registered]
@@ -863,10 +951,9 @@ rewrite[R8] `certs.extend(self.get_certs(slot.next()..));` => `let verif_from = 
 requires
         self.wf(),
         (self.epoch_info.own_id.0 as int) < self.epoch_info.epoch.validators@.len(),
-        // pool invariant (maintained by add_valid_cert, ASSUMED here): the highest finalized slot is
-        // backed by stored certificates - unless nothing beyond genesis has been finalized yet
-        self.hi() > 0 ==> self.slot_states@.contains_key(self.finality_tracker.highest_finalized_slot)
-            && self.slot_states@[self.finality_tracker.highest_finalized_slot].proves_finalized(),
+        // pool invariant, established by PoolImpl::new and kept by add_vote / add_cert / add_block (all PROVED below): the highest
+        // finalized slot is backed by stored certificates - unless nothing beyond genesis has been finalized yet
+        self.fin_ok(),
 ensures
         // [C18.bundle_is_final_certs_then_all_later_certs_and_own_votes]
         exists|head: Seq<Cert>, tail: Seq<Cert>, votes: Seq<Vote>|
@@ -930,21 +1017,19 @@ pub fn verif_cert_block_hash(c: &Cert) -> (r: BlockHash)
     ensures r == (cert_certifies(*c)->0).1
 { unimplemented!() }
 impl FinalityTracker {
-    // Only the finality tracker itself changes in these calls (they borrow that one field); their contracts are proved in
-    // unit `finality` and play no role for the wiring obligations below.
-    // (the watermark never moves back: PROVED for all four in unit `finality`)
-    #[verifier::external_body] pub fn mark_notarized(&mut self, id: BlockId) -> (r: FinalizationEvent)
-        ensures final(self).first_unpruned_slot.0 >= old(self).first_unpruned_slot.0 { unimplemented!() }
-    #[verifier::external_body] pub fn mark_fast_finalized(&mut self, id: BlockId) -> (r: FinalizationEvent)
-        ensures final(self).first_unpruned_slot.0 >= old(self).first_unpruned_slot.0 { unimplemented!() }
-    #[verifier::external_body] pub fn mark_finalized(&mut self, slot: Slot) -> (r: FinalizationEvent)
-        ensures final(self).first_unpruned_slot.0 >= old(self).first_unpruned_slot.0 { unimplemented!() }
-    #[verifier::external_body] pub fn add_parent(&mut self, id: BlockId, parent: BlockId) -> (r: FinalizationEvent)
-        requires
-            // [C06.parent_in_earlier_slot C10.parent_in_earlier_slot]
-            id.0.0 > parent.0.0,
-        ensures final(self).first_unpruned_slot.0 >= old(self).first_unpruned_slot.0
-    { unimplemented!() }
+    // The four mutators of the finality tracker, with the contracts PROVED on their real bodies in unit `finality`.  Their
+    // preconditions (the tracker's representation invariant, slots below u64::MAX, a parent in an earlier slot, one parent per
+    // block) are obligations at the call sites in this unit.
+/*@ stub units/finality/unit.rs :: src/consensus/pool/finality_tracker.rs :: impl FinalityTracker/fn mark_notarized @*/
+/*@ stub units/finality/unit.rs :: src/consensus/pool/finality_tracker.rs :: impl FinalityTracker/fn mark_fast_finalized @*/
+/*@ stub units/finality/unit.rs :: src/consensus/pool/finality_tracker.rs :: impl FinalityTracker/fn mark_finalized @*/
+/*@ stub units/finality/unit.rs :: src/consensus/pool/finality_tracker.rs :: impl FinalityTracker/fn add_parent @*/
+}
+impl FinalityTracker {
+/*@ stub units/finality/unit.rs :: src/consensus/pool/finality_tracker.rs :: impl Default for FinalityTracker/fn default @*/
+}
+impl ParentReadyTracker {
+    #[verifier::external_body] pub fn default() -> (r: ParentReadyTracker) { unimplemented!() }
 }
 impl ParentReadyTracker {
     #[verifier::external_body] pub fn mark_notar_fallback(&mut self, id: &BlockId) -> (r: SmallVec<[(Slot, BlockId); 1]>) { unimplemented!() }
@@ -975,6 +1060,8 @@ elide-async
 requires
         old(self).waiting_ok(),
 ensures
+        // [C18.finalized_slot_is_backed_by_stored_certificates C10.finalized_slot_is_backed_by_stored_certificates]
+        old(self).fin_ok() ==> final(self).fin_ok(),
         final(self).epoch_info == old(self).epoch_info,
         final(self).finality_tracker == old(self).finality_tracker,
         // the pool-level follow-up of a finalization (parent-ready events, pruning of decided slots):
@@ -1014,6 +1101,8 @@ rewrite*[R8] `.notify_parent_certified(` => `.verif_notify_parent_certified(`
 requires
         old(self).waiting_ok(),
 ensures
+        // [C18.finalized_slot_is_backed_by_stored_certificates C10.finalized_slot_is_backed_by_stored_certificates]
+        old(self).fin_ok() ==> final(self).fin_ok(),
         final(self).epoch_info == old(self).epoch_info,
         final(self).finality_tracker == old(self).finality_tracker,
         // [C08.no_state_is_recreated_for_a_decided_slot] telling the waiting blocks touches only slot states the pool keeps
@@ -1035,10 +1124,24 @@ before `let Some(children) = self.s2n_waiting_parent_cert.remove(block_id) else 
         proof { broadcast use axiom_fresh_slot_state; }
 before `return;`
         proof {
+            if pre.fin_ok() {
+                assert forall|s: Slot| #[trigger] pre.slot_states@.contains_key(s) && s.0 >= pre.lo()
+                    implies self.slot_states@.contains_key(s) && certs_grow(pre.slot_states@[s], self.slot_states@[s]) by {
+                    let _ = self.st(s); let _ = pre.st(s);
+                }
+                lemma_fin_ok_transfer(&pre, self);
+            }
             assert forall|p: BlockId, c: BlockId| #[trigger] self.waits(p, c) implies self.registered(c) by { assert(pre.waits(p, c)); }
         }
 blockend `let Some(children) = self.s2n_waiting_parent_cert.remove(block_id) else {`
         proof {
+            if pre.fin_ok() {
+                assert forall|s: Slot| #[trigger] pre.slot_states@.contains_key(s) && s.0 >= pre.lo()
+                    implies self.slot_states@.contains_key(s) && certs_grow(pre.slot_states@[s], self.slot_states@[s]) by {
+                    let _ = self.st(s); let _ = pre.st(s);
+                }
+                lemma_fin_ok_transfer(&pre, self);
+            }
             assert forall|p: BlockId, c: BlockId| #[trigger] self.waits(p, c) implies self.registered(c) by {
                 assert(pre.waits(p, c));
                 assert(pre.registered(c));
@@ -1101,8 +1204,15 @@ rewrite*[R9] `cert.clone()` => `verif_clone_cert(&cert)`
 rewrite*[R9] `block_id.clone()` => `verif_clone_block_id(&block_id)`
 rewrite[R8] `cert .block_hash() .cloned() .expect("notar(-fallback) cert always references a block")` => `verif_cert_block_hash(&cert)`
 requires
+        old(self).fin_ok(),
+        // slots stay below u64::MAX (the callers' slot-window check, C04)
+        cert.spec_slot().0 < u64::MAX,
         old(self).waiting_ok() && old(self).retained_ok(),
 ensures
+        // [C18.finalized_slot_is_backed_by_stored_certificates C10.finalized_slot_is_backed_by_stored_certificates]
+        // whatever the certificate is and whatever it decides: the statuses the finality tracker keeps still stand for stored
+        // certificates, and the highest finalized slot holds the certificates that prove it - what recover_from_standstill re-broadcasts
+        final(self).fin_ok(),
         final(self).epoch_info == old(self).epoch_info,
         final(self).lo() >= old(self).lo(),
         // [C08.nothing_is_tracked_for_a_decided_slot C03.nothing_is_tracked_for_a_decided_slot] whatever the certificate decides
@@ -1202,10 +1312,16 @@ rewrite*[R9] `parent_id.clone()` => `verif_clone_block_id(&parent_id)`
 rewrite*[R8] `.notify_parent_certified(` => `.verif_notify_parent_certified(`
 rewrite[R5] `self.s2n_waiting_parent_cert .entry(parent_id) .or_default() .push(block_id);` => `let ghost pw = self.s2n_waiting_parent_cert@; let verif_w = verif_waiting_entry(&mut self.s2n_waiting_parent_cert, parent_id); let ghost w0 = verif_w@; verif_w.push(block_id); proof { assert(self.s2n_waiting_parent_cert@[parent_id]@ == w0.push(block_id)); assert(w0.push(block_id)[w0.len() as int] == block_id); assert forall|c: BlockId| w0.contains(c) implies w0.push(block_id).contains(c) by { let i = choose|i: int| 0 <= i < w0.len() && w0[i] == c; assert(w0.push(block_id)[i] == c); } assert forall|c: BlockId| w0.push(block_id).contains(c) implies w0.contains(c) || c == block_id by { let i = choose|i: int| 0 <= i < w0.push(block_id).len() && w0.push(block_id)[i] == c; if i < w0.len() { assert(w0[i] == c); } } }`
 requires
+        old(self).fin_ok(),
+        block_id.0.0 < u64::MAX,
+        // ASSUMED (collision resistance of the block hash): a block id names one block, so a repeated registration names the same parent
+        old(self).finality_tracker.parents@.contains_key(block_id) ==> old(self).finality_tracker.parents@[block_id] == parent_id,
         // the caller announces only blocks whose parent is in an earlier slot (proved for blockstore and repair: C13, C14)
         block_id.0.0 > parent_id.0.0,
         old(self).waiting_ok() && old(self).retained_ok(),
 ensures
+        // [C18.finalized_slot_is_backed_by_stored_certificates C10.finalized_slot_is_backed_by_stored_certificates]
+        final(self).fin_ok(),
         final(self).epoch_info == old(self).epoch_info,
         final(self).lo() >= old(self).lo(),
         // [C08.nothing_is_tracked_for_a_decided_slot] also when the new parent link decides further slots, and for a block that
